@@ -25,7 +25,8 @@ NAN = -99
 CODE_NANEQ = True
 
 # keep the judge JVMs small: the machine is shared (core.judge asks for -Xmx6g per JVM)
-JVM_ENV = {"_JAVA_OPTIONS": "-Xmx1500m"}
+JVM_ENV = {"_JAVA_OPTIONS": "-Xmx1500m -XX:ParallelGCThreads=2"}
+MC_ENV = {"_JAVA_OPTIONS": "-Xmx3g -XX:ParallelGCThreads=4"}
 
 INV_ALL = ["TypeOK", "ResultIsBox", "ResultIsMinimalWindow", "SliceWellFormed", "TopPrefixEmpty",
            "BottomSuffixEmpty", "LeftPrefixEmpty", "RightSuffixEmpty", "ScanningTop"]
@@ -41,7 +42,7 @@ def mc(ctx, name, H, W, vals, ls, mode, naneq=CODE_NANEQ, mut="none", expect="ok
     return ctx.model_check("TrimCrop", dict(
         spec="Spec", invariants=inv, properties=["Terminates"] if live else [],
         constants=dict(H=H, W=W, VALS=set(vals), LISTS=lists(*ls), MODE=mode, CODE_NANEQ=naneq, MUT=mut)),
-        name, expect=expect)
+        name, expect=expect, workers=4 if H * W <= 12 else 16, env=MC_ENV)
 
 
 # ---------------------------------------------------------------------------------------------- families
@@ -202,8 +203,9 @@ class Tally:
             self.ctx.report_drift("... %d cases in total disagree with the scan model" % self.drifts)
 
 
-def observe(ctx, jobs, name, tally, kind, parallel=6):
-    cases = core.run_jobs("trim_worker", jobs, nproc=16)
+def observe(ctx, jobs, name, tally, kind, parallel=4):
+    # each worker process pays ~5 CPU-s for importing xrspatial/numba: few processes in the quick tier
+    cases = core.run_jobs("trim_worker", jobs, nproc=ctx.pick(4, 12))
     for c, j in zip(cases, jobs):
         c["proper"] = j.get("proper", False)
     good = [(i, c) for i, c in enumerate(cases) if "error" not in c]
